@@ -4,10 +4,11 @@ from props.common import TRUSTED_BASE, ASSUMPTIONS as _A
 
 ID = 'C13'
 LEAN_MODULES = ['HidVerif.Props.C13']
-THEOREMS = ['HidVerif.Props.C13.' + n for n in ('escape_roundtrip', 'unit_table', 'escaped_is_printable', 'char_immediate_roundtrip')]
+THEOREMS = ['HidVerif.Props.C13.' + n for n in ('escape_roundtrip', 'unit_table', 'escaped_is_printable', 'char_immediate_roundtrip', 'pack_bools_spec')]
 TRUSTED = TRUSTED_BASE + ['py2lean in tools/extract.py transcribes _escape_bytes (if/elif chains over one byte); anything outside that '
                           'shape is reported as untranslatable; the transcription is also executed against the Python function on all '
-                          '256 bytes x 2 quotes every run']
+                          '256 bytes x 2 quotes every run; it transcribes CodeGen.pack_bools (a loop over enumerate that appends to / updates the last element '
+                          'of a list) likewise, executed against Python on all 0/1 lists up to length 11 and 300 longer ones every run']
 ASSUMPTIONS = _A + ['the literal syntax accepted by the real assembler is the one of Asm.unescape (A8)']
 RULE = ('theorem for all byte strings; searcher: every byte value singly and in pairs with neighbours, random strings, as string and '
         'character literals and in constant int/byte/bool/string arrays of lengths 0..40, global and local, through real hidc, the Lean '
@@ -39,11 +40,45 @@ def transcription_check(ctx):
     ctx.say('py2lean transcription of _escape_bytes vs Python on %d cases: %d mismatches' % (n, len(bad)))
 
 
+def pack_check(ctx):
+    """Gen.packBools (py2lean output, evaluated by Lean) agrees with CodeGen.pack_bools on every 0/1 list up to length 11 and on
+    random longer ones; both agree with the specification (bit j % 8 of byte j / 8 is element j) - a disagreement with the
+    specification is a concrete failing input for the proof that no longer checks"""
+    import subprocess, itertools
+    from hidc.codegen.generator import CodeGen
+    lists = [list(t) for n in range(0, 12) for t in itertools.product((0, 1), repeat=n)]
+    lists += [[ctx.rng.randrange(2) for _ in range(ctx.rng.randrange(12, 90))] for _ in range(300)]
+    p = subprocess.run([hidlib.HIDMODEL, 'packbools'], input=''.join(''.join(map(str, l)) + '\n' for l in lists), capture_output=True, text=True, timeout=300)
+    outs = p.stdout.split('\n')
+    bad = spec = 0
+    for l, o in zip(lists, outs):
+        try:
+            py = list(CodeGen.pack_bools([bool(x) for x in l]))
+        except Exception as e:
+            py = 'raises %s' % type(e).__name__
+        want = [sum(l[8 * k + j] << j for j in range(8) if 8 * k + j < len(l)) for k in range((len(l) + 7) // 8)]
+        if py != want:
+            spec += 1
+            if spec <= 2:
+                ctx.violations.append(dict(what='pack_bools(%s) = %s, the packed bits must be %s' % (l, py, want), kind='PACK-BOOLS',
+                                           source='const bool[] a = [%s];\nempty @is_you() { for (int i = 0; i < a.length; i += 1) { write(a[i]); } }' % ', '.join('true' if x else 'false' for x in l),
+                                           args=[], config=dict(w=2, stack=100, unchecked=False)))
+        if py != [int(x) for x in o.split()]: bad += 1
+    ctx.stats['transcription_pack_bools'] = dict(cases=len(lists), mismatches=bad, differ_from_specification=spec)
+    if (bad and not spec) or len(outs) < len(lists):
+        ctx.breaks.append(dict(kind='translator', name='py2lean(pack_bools)', detail='%d of %d lists differ between Gen.packBools and Python' % (bad, len(lists))))
+    ctx.say('py2lean transcription of pack_bools vs Python on %d lists: %d mismatches, %d differ from the specification' % (len(lists), bad, spec))
+
+
 def run(ctx):
     try:
         transcription_check(ctx)
     except Exception as e:
         ctx.breaks.append(dict(kind='translator', name='py2lean(_escape_bytes) self-check', detail='%s: %s' % (type(e).__name__, e)))
+    try:
+        pack_check(ctx)
+    except Exception as e:
+        ctx.breaks.append(dict(kind='translator', name='py2lean(pack_bools) self-check', detail='%s: %s' % (type(e).__name__, e)))
     jobs = suites.corpus_jobs()
     # every byte singly, in a string / char / const byte array, with neighbours that stress escaping
     ctxbytes = [0x5c, 0x22, 0x27, 0x0a, 0x41]
